@@ -607,6 +607,7 @@ def gen_mask(rng, ny, nx):
 
 
 TRANSFORMS = [
+    [1, 0, 50, 0, 1, 40], [1, 0, 0.5, 0, 1, 0.5], [1, 0, -3, 0, 1, 0], [1, 0, 0, 0, 1, 7],
     [1, 0, 0, 0, 1, 0], [2, 0, 10, 0, 3, -5], [1, 0, 100, 0, -1, 50], [-1, 0, 0, 0, -1, 0], [0, -1, 7, 1, 0, -3],
     [0.5, 0, 0.25, 0, 0.5, -0.75], [1, 1, 0, 0, 1, 0], [30, 0, 500000, 0, -30, 4000000], [0.25, -0.5, 3, 1.5, 2, -8],
     [0, 0, 0, 0, 0, 0],
@@ -843,6 +844,13 @@ def run(ctx):
                             mask_kind='none' if mk is None else 'structured', connectivity=conn, transform=None)
                 ctx.count('fixed/conn%d/%s' % (conn, 'mask' if mk else 'nomask'))
                 check_case(ctx, pz, case, pending)
+    # every catalogued transform (pure translations, scales, flips, rotations, shears, degenerate) on one raster with a hole
+    for tr in TRANSFORMS:
+        case = dict(family='transform', ny=4, nx=5, values=[[0.5, 0.5, 0.5, 1.5, 1.5], [0.5, 1.5, 0.5, 1.5, 0.5], [0.5, 0.5, 0.5, 0.5, 0.5],
+                                                            [1.5, 1.5, 0.5, 2.5, 2.5]],
+                    dtype='float64', mask=None, mask_dtype=None, mask_kind='none', connectivity=4, transform=[float(t) for t in tr])
+        ctx.count('transform/fixed')
+        check_case(ctx, pz, case, pending)
     # memory layouts: values and mask independently Fortran-ordered / transposed views / strided views
     lay_v = [[1, 1, 2, 2], [1, 3, 3, 2], [1, 1, 1, 2]]
     lay_m = [[1, 1, 0, 1], [1, 1, 1, 1], [0, 1, 1, 1]]
@@ -871,7 +879,7 @@ def run(ctx):
                             connectivity=conn, transform=None)
                 ctx.count('last-slot/N=%d/conn%d' % (N, conn))
                 check_case(ctx, pz, case, pending)
-    n = 3000 if ctx.quick() else 20000
+    n = 2400 if ctx.quick() else 20000
     for t in range(n):
         case = gen_case(rng, combos)
         ctx.count('%s/conn%d/%s/%s/mask-%s%s' % (case['family'], case['connectivity'],
@@ -883,7 +891,7 @@ def run(ctx):
             flush(ctx, pending)
     flush(ctx, pending)
     # exhaustive sub-domain (the python side of the bounded Coq theorem: same domain against the REAL code)
-    mc, mcm = (8, 5) if ctx.quick() else (11, 8)
+    mc, mcm = (7, 5) if ctx.quick() else (11, 8)
     for case in exhaustive_cases(mc, mcm):
         ctx.count('%s/%dx%d' % (case['family'], case['ny'], case['nx']))
         check_case(ctx, pz, case, pending)
